@@ -13,11 +13,11 @@ CHECKS = {
          "Trusts fontTools' CFF reader and RecordingPen; coordinates |v|<=16000, <=14 glyphs, depth<=5; normal form of DESIGN 4.1/4.2.",
          "DESIGN.md section 5 C01, 4.1, 4.2"),
  "C02": ("runtime monitoring: structural + segment-wise Bezier-distance oracle over reloaded glyf data of generated UFOs; maxp recomputed by own DFS",
-         "Exploration: generated UFOs compiled by the real compileTTF (12 %: through compileInterpolatableTTFs as two identical masters) under random convertCubics/reverseDirection/flattenComponents/allQuadratic/cubicConversionError/dropImpliedOnCurves settings; every reloaded glyph is matched point for point (lines, quadratics, on-curve end points, direction) against the exact-rational resolver, each converted cubic is measured against its quadratic run, composites are compared with the (flattened) reference component list, maxp is recomputed.",
+         "Exploration: generated UFOs compiled by the real compileTTF (12 %: through compileInterpolatableTTFs as two identical masters) under random convertCubics/reverseDirection/flattenComponents/allQuadratic/cubicConversionError (down to 0.00005)/dropImpliedOnCurves settings, with the per-glyph public.truetype.overlap flag key on a third of the fonts; every reloaded glyph is matched point for point (lines, quadratics, on-curve end points, direction) against the exact-rational resolver, each converted cubic is measured against its quadratic run, composites are compared with the (flattened) reference component list, maxp is recomputed.",
          "Trusts fontTools' glyf reader; distance bound conversionError*upm + sqrt(1/2) + 0.07; 2x2 entries > 2 (not storable) only counted.",
          "DESIGN.md section 5 C02, 4.3"),
  "C12": ("runtime monitoring: relation between executions (one UFO compiled under every optimizeCFF x subroutinizer x cffVersion combination; drawings, advances, layout bytes compared pairwise)",
-         "Exploration: each generated UFO is compiled 12 times by the real compileOTF; all supported combinations must reload to the same normal-form drawing per glyph, the same advances (hmtx and, for CFF 1, the charstring's own width) and byte-identical GPOS/GDEF/GSUB; the unsupported combination must raise NotImplementedError.",
+         "Exploration: each generated UFO is compiled 12 times by the real compileOTF (1 %: ~800 glyphs sharing 230-300 curve motifs, so that compreffor fills the global subroutine index, under 4 combinations); all supported combinations must reload to the same normal-form drawing per glyph, the same advances (hmtx and, for CFF 1, the charstring's own width) and byte-identical GPOS/GDEF/GSUB; the unsupported combination must raise NotImplementedError.",
          "Trusts fontTools' CFF/CFF2 reader; default rounding only; normal form of DESIGN 4.1 (strict differences counted).",
          "DESIGN.md section 5 C12, 4.1"),
  "C03": ("runtime monitoring: rule oracle over reloaded glyph order / cmap of generated UFOs, plus a completely enumerated small scope of makeOfficialGlyphOrder",
@@ -25,11 +25,11 @@ CHECKS = {
          "Trusts fontTools' cmap/maxp readers; ASCII glyph names; '.notdef' carries no code point.",
          "DESIGN.md section 5 C03"),
  "C18": ("runtime monitoring: reference oracle over reloaded GDEF classes / ligature carets / GPOS cursive records and lookup flags of generated multi-script UFOs",
-         "Exploration: 3000 generated UFOs (category maps incl. invalid values and non-exported glyphs, caret/vcaret anchors, one-sided and suffixed entry/exit anchors in mixed-direction repertoires with GSUB-reachable alternates, with/without user GDEF blocks) compiled by the real compileTTF; GDEF and CursivePos data read back and compared with the UFO data; script direction by an independent provenance closure.",
+         "Exploration: 3000 generated UFOs (category maps incl. invalid values, non-exported glyphs and maps that use a single class, boundary / origin caret and cursive anchor values, caret/vcaret anchors, one-sided and suffixed entry/exit anchors in mixed-direction repertoires with GSUB-reachable alternates, with/without user GDEF blocks) compiled by the real compileTTF; GDEF and CursivePos data read back and compared with the UFO data; script direction by an independent provenance closure.",
          "Trusts fontTools' GDEF/GPOS readers and unicodedata; script-neutral glyphs must keep the right-to-left flag, glyphs of mixed provenance are not judged (counted).",
          "DESIGN.md section 5 C18"),
  "C20": ("runtime monitoring: reachability oracle over the reloaded GPOS ScriptList -> LangSys -> feature -> lookup -> coverage graph of generated multi-script UFOs",
-         "Exploration: 2400 generated UFOs with kerning and mark/cursive anchors, with and without languagesystem statements, incl. encoded source glyphs of a foreign script that are not exported (public.skipExportGlyphs) next to kerned glyphs whose Script_Extensions name that script; for every language system reaching generated kern/dist, every generated mark/mkmk/curs/abvm/blwm lookup covering a glyph of that script must be reachable too, and every language system that exposes any generated positioning feature must reach the generated kern/dist lookups acting on its script's glyphs. The known defect (a script the exported font really supports is registered only by the kern writer) is listed as a finding; any other unreachable feature is a violation.",
+         "Exploration: 2400 generated UFOs with kerning and mark/cursive anchors, with and without languagesystem statements (also in the user's own order: a named language declared before its script's dflt; script chains that need repeated merging), incl. encoded source glyphs of a foreign script that are not exported (public.skipExportGlyphs) next to kerned glyphs whose Script_Extensions name that script; for every language system reaching generated kern/dist, every generated mark/mkmk/curs/abvm/blwm lookup covering a glyph of that script must be reachable too, and every language system that exposes any generated positioning feature must reach the generated kern/dist lookups acting on its script's glyphs. The known defect (a script the exported font really supports is registered only by the kern writer) is listed as a finding; any other unreachable feature is a violation.",
          "Trusts fontTools' GPOS reader and unicodedata script data; script membership closed over the generated GSUB rules.",
          "DESIGN.md section 5 C20, section 6"),
  "C04": ("runtime monitoring: recomputation oracle over compiled and reloaded tables (raw hmtx/vmtx decoding, own Bezier extrema), byte comparison of save/reload/save, enumerated advance sequences",
@@ -41,7 +41,7 @@ CHECKS = {
          "Trusts fontTools' sfnt reader; Latin-1 feature-file-safe source names; uniqueness numbering scheme not prescribed.",
          "DESIGN.md section 5 C11"),
  "C05": ("runtime monitoring: GPOS interpreter (shaper semantics over the reloaded tables) against an independent UFO kerning lookup, per script tag, for every ordered glyph pair",
-         "Exploration: 700 generated multi-script UFOs (all four kerning precedence levels with deliberate exceptions, zero/fractional/negative values, script sets that need repeated merging, missing glyphs, unknown groups, GDEF marks, languagesystems none/some/all, quantisation, both kern writers); every ordered glyph pair is evaluated under every script tag by an interpreter of the compiled GPOS and compared with the UFO lookup (value, applied once, x-placement rule); three listed mechanisms are known findings, each re-exercised by a dedicated stratum.",
+         "Exploration: 700 generated multi-script UFOs (all four kerning precedence levels with deliberate exceptions, zero/fractional/negative values incl. exact half-step ties of both parities at quantisation 1/2/5/10, script sets that need repeated merging, missing glyphs, unknown groups, GDEF marks, languagesystems none/some/all, quantisation, both kern writers); every ordered glyph pair is evaluated under every script tag by an interpreter of the compiled GPOS and compared with the UFO lookup (value, applied once, x-placement rule); three listed mechanisms are known findings, each re-exercised by a dedicated stratum.",
          "Trusts fontTools' GPOS/GDEF readers and unicodedata; shaper semantics of DESIGN section 3; quantifier of DESIGN 4.4.",
          "DESIGN.md section 5 C05, 4.4, section 6"),
  "C16": ("runtime monitoring: field-by-field reference oracle (independent fallback table) over reloaded name/OS2/hhea/head/post/CFF tables, plus an exhaustive sweep of every Unicode scalar through the PostScript-name normaliser",
@@ -57,11 +57,11 @@ CHECKS = {
          "Exact for dyadic/integer inputs, 1e-9 relative otherwise; selection heuristics of anchor propagation deliberately not re-implemented.",
          "DESIGN.md section 5 C15"),
  "C06": ("runtime monitoring: GPOS interpreter (MarkBasePos / MarkLigPos / MarkMarkPos with lookup flags and filtering sets, later lookup wins) against anchor-difference candidates computed from the UFO",
-         "Exploration: 600 generated UFOs (marks with several attaching anchors, bases, ligatures with numbered anchors and gaps, mark-to-mark anchors, fractional coordinates, Indic code points for abvm/blwm incl. a second, possibly undeclared Indic script, roles by anchors / categories / user GDEF, groupMarkClasses, quantisation); every glyph pair (and every ligature component) is evaluated under every script tag with mark, mkmk, abvm, blwm active together; the final attachment must be one of the source-defined candidates, or absent when there is none.",
+         "Exploration: 600 generated UFOs (marks with several attaching anchors, bases, ligatures with numbered anchors and gaps, mark-to-mark anchors, fractional coordinates, Indic code points for abvm/blwm incl. a second, possibly undeclared Indic script, roles by anchors / categories / user GDEF incl. base-classed glyphs that keep a paired mark anchor, groupMarkClasses, quantisation); every glyph pair (and every ligature component) is evaluated under every script tag with mark, mkmk, abvm, blwm active together; the final attachment must be one of the source-defined candidates, or absent when there is none.",
          "Trusts fontTools' GPOS/GDEF readers; shaper semantics of DESIGN section 3; only the mark (and GDEF) writer runs.",
          "DESIGN.md section 5 C06, section 6"),
  "C13": ("runtime monitoring: relation between executions (with / without the skip list) over reloaded outlines, order, cmap, metrics and GPOS results evaluated by the interpreter",
-         "Exploration: 500 component-graph UFOs with kerning groups, mark anchors and categories x random skip subsets (nested chains, mirrored references, group members) delivered by argument / UFO lib / both / designspace lib, OTF and TTF, static plus interpolatable and variable strata, plus a sparse-master stratum (leaf <- middle <- top chains whose skipped inner glyphs have non-linear sparse layer masters; the variable fonts compiled with and without the skip list are read back at nine axis positions); each compiled twice by the real compile functions; skipped names must be absent everywhere, the remaining glyphs' contour multisets (OTF exact, TTF within the stored-form error bound), advances, order, cmap, kerning and mark attachment must be unchanged.",
+         "Exploration: 500 component-graph UFOs with kerning groups, mark anchors and categories x random skip subsets (nested chains, mirrored references, group members) delivered by argument / UFO lib / both / designspace lib / the union of the master UFOs' libs (compileInterpolatableTTFs on a master list), OTF and TTF, static plus interpolatable and variable strata, plus a sparse-master stratum (leaf <- middle <- top chains whose skipped inner glyphs have non-linear sparse layer masters; optionally on two axes with sparse sources that omit the axis they leave at its default; the variable fonts compiled with and without the skip list are read back at nine axis positions); each compiled twice by the real compile functions; skipped names must be absent everywhere, the remaining glyphs' contour multisets (OTF exact, TTF within the stored-form error bound), advances, order, cmap, kerning and mark attachment must be unchanged.",
          "Trusts fontTools' readers; TTF cases restricted to line/quadratic sources; feature text without GSUB rules.",
          "DESIGN.md section 5 C13"),
  "C07": ("runtime monitoring: deep before/after state snapshots of every source object, identity-aliasing check at working-copy creation, recording dicts (tripwires) keyed by call site, source-free failpoints (sys.monitoring) for the raising executions",
@@ -69,11 +69,11 @@ CHECKS = {
          "Snapshot scope as listed in the evidence assumptions; failpoints sampled, not all entries; faults inside C extensions cannot be injected.",
          "DESIGN.md section 5 C07, 2.3"),
  "C14": ("runtime monitoring: contract monitor around real filter calls (pre/post snapshots of the glyph set and of the source font, returned set, reuse histories versus fresh objects)",
-         "Exploration: 1400 applications of the 12 shipped filter classes and 5 interpolatable variants (each class at least once per run) to generated component-graph fonts under include / exclude / predicate selections (including empty include / exclude lists), on the font itself or on a separate glyph-set copy, with one filter object reused across fonts; from the snapshots the four clauses are decided: untouched glyphs unchanged, every changed/added/removed glyph reported, source font unchanged when a separate glyph set is given, reused object == fresh object.",
+         "Exploration: 1400 applications of the 12 shipped filter classes and 5 interpolatable variants (each class at least once per run) to generated component-graph fonts under include / exclude / predicate selections (including empty include / exclude lists), on the font itself or on a separate glyph-set copy, with one filter object reused across fonts, plus a pipeline stratum (7 %: the real compileInterpolatable*FromDS on a family with a chain of interpolatable and per-master lib filters and a sparse master, monitors around the pre-processor's _run and the filters' __call__: step report = union of the filters' reports, every changed glyph reported, and after every step the instantiator - cached models included - reproduces each glyph set at its own location); from the snapshots the four clauses are decided: untouched glyphs unchanged, every changed/added/removed glyph reported, source font unchanged when a separate glyph set is given, reused object == fresh object.",
          "Glyph state = outline, components, anchors, metrics, unicodes, lib; over-reporting only counted.",
          "DESIGN.md section 5 C14, 2.3"),
  "C08": ("runtime monitoring: per-table sha256 digests of saved fonts compared across fresh interpreters started with different PYTHONHASHSEED values and across library / memory-vs-disk / inplace / call-history variants",
-         "Exploration: 64 cases (10 repository fixtures + generated layout-heavy UFOs incl. the groupMarkClasses option with a deliberate colouring tie, outline UFOs with lib filters incl. colliding propagated anchor names, generated designspaces) each compiled in 4 fresh interpreters (PYTHONHASHSEED 0-3; thorough: 8) under {defcon, ufoLib2} x {in memory, saved and re-opened} x {first call, second call on the same objects, after another compile function, inplace=True}; all digests of one (case, function, options) must be equal, a mismatch is localised to the table. ufo2ft has no threads: hash order and call history are the only schedules.",
+         "Exploration: 64 cases (10 repository fixtures + generated layout-heavy UFOs incl. the groupMarkClasses option with a deliberate colouring tie, outline UFOs with lib filters incl. colliding propagated anchor names and a mark-of-marks composite whose curve component's control box exceeds its outline box, contextual anchors, generated designspaces) each compiled in 4 fresh interpreters (PYTHONHASHSEED 0-3; thorough: 8) under {defcon, ufoLib2} x {in memory, saved and re-opened} x {first call, second call on the same objects, after another compile function, inplace=True}; all digests of one (case, function, options) must be equal, a mismatch is localised to the table. ufo2ft has no threads: hash order and call history are the only schedules.",
          "SOURCE_DATE_EPOCH pinned; head checksum masked; complete public.glyphOrder except in the per-library stratum.",
          "DESIGN.md section 5 C08"),
  "C19": ("runtime monitoring: closed-form variation reference (exact rationals, independent of varLib/fontMath) against real Instantiator instances; deep before/after snapshots of all sources; repeated generation from one instantiator",
@@ -81,11 +81,11 @@ CHECKS = {
          "Closed forms cover the layouts listed in the evidence assumptions; exact ties accept both neighbours only where the statement does not fix the rounding mode.",
          "DESIGN.md section 5 C19, section 3 R-var, 4.5"),
  "C09": ("runtime monitoring: structural comparison of the produced master fonts glyph by glyph (contours, end points, on/off flags, component lists with their 2x2 parts, drawn CFF path operations), sparse-master glyph-set bounds, with a per-master control compile that counts would-be divergences",
-         "Exploration: 1200 generated compatible master families (per-master exaggerated curvature so that a per-master cu2qu diverges - measured by the control -, per-master component 2x2 differences in a single random entry, sparse layer masters - also hosted in a separate UFO - with nested composites) through compileInterpolatableTTFs / TTFsFromDS / OTFsFromDS with flattenComponents, skipExportGlyphs, custom filters and optimizeCFF 1-2 on the OTF path; every glyph must have identical point structure in all masters that contain it; sparse masters must hold '.notdef', the layer's glyphs and only glyphs tied to them by component references.",
+         "Exploration: 1200 generated compatible master families (per-master exaggerated curvature so that a per-master cu2qu diverges - measured by the control -, per-master component 2x2 differences in a single random entry, sparse layer masters - also hosted in a separate UFO - with nested composites) through compileInterpolatableTTFs / TTFsFromDS / OTFsFromDS with flattenComponents, skipExportGlyphs, custom filters and optimizeCFF 1-2 on the OTF path; every glyph must have identical point structure in all masters that contain it; sparse masters (incl. sources that omit a default-valued axis) must hold '.notdef', the layer's glyphs and only glyphs tied to them by component references, and every glyph decomposed in the full masters that contains a layer glyph must be decomposed there too.",
          "Masters compatible by construction; placeholder glyphs of sparse masters exempt from the structure comparison.",
          "DESIGN.md section 5 C09"),
  "C10": ("runtime monitoring: the compiled variable font is evaluated at every master location by fontTools' instancer (trusted reader) and compared with the interpolatable master (outlines, advances) and - through the GPOS interpreter - with that master's kerning and anchor data",
-         "Exploration: 800 generated compatible families (1-2 axes, intermediate and sparse masters, axis maps, aligned / ragged per-master kerning with exceptions, per-master anchors) through compileVariableTTF / compileVariableCFF2 with variableFeatures on and off, plus a pre-filter stratum (PropagateAnchors: the master compiled alone with the same filter is the reference for attachments that exist only after the filter); at each full master's location outlines and advances must be within one unit of the interpolatable master with identical point structure, kerning must equal the master's UFO lookup and mark attachment one of the master's anchor candidates (exact, +-1 / +-2 only for masters strictly inside another master's support).",
+         "Exploration: 800 generated compatible families (1-2 axes, intermediate and sparse masters, axis maps, aligned / ragged per-master kerning with exceptions, kerning groups present in one master only, lib categories with base-mark kerning, per-master anchors) through compileVariableTTF / compileVariableCFF2 with variableFeatures on and off, plus a pre-filter stratum (PropagateAnchors: the master compiled alone with the same filter is the reference for attachments that exist only after the filter); at each full master's location outlines and advances must be within one unit of the interpolatable master with identical point structure, kerning must equal the master's UFO lookup and mark attachment one of the master's anchor candidates (exact, +-1 / +-2 only for masters strictly inside another master's support).",
          "Trusts fontTools.varLib.instancer; kerning judged for pairs where the static compile of the master alone already gives the UFO value (C05 covers the rest).",
          "DESIGN.md section 5 C10, 4.5, section 6"),
 }
